@@ -136,6 +136,18 @@ pub fn generate(r: &mut Rng, tier: Tier, run_index_hint: u64) -> Scenario {
                 }
             }
         }
+        // a base file whose name is not valid UTF-8 (legal on Linux), or is otherwise unusual
+        let raw_base_name = if r.chance(1, 16) {
+            note.push_str("odd-base-name ");
+            Some(crate::t2::hex(match r.below(4) {
+                0 => b"prog\xff.s".as_slice(),
+                1 => b"\xc3\x28.s".as_slice(),
+                2 => "caf\u{e9} \u{4e16}.s".as_bytes(),
+                _ => b"a b\t'c\".s".as_slice(),
+            }))
+        } else {
+            None
+        };
         let n_modes = if tier == Tier::Quick { 3 } else { 5 };
         let mut modes: Vec<Vec<String>> = Vec::new();
         for _ in 0..n_modes {
@@ -145,7 +157,7 @@ pub fn generate(r: &mut Rng, tier: Tier, run_index_hint: u64) -> Scenario {
             }
         }
         let profile = if tier == Tier::Thorough && r.chance(1, 3) || tier == Tier::Quick && r.chance(1, 6) { "release" } else { "dev" };
-        t2spec = Some(T2Spec { modes, plan, profile: profile.into(), force_color: r.chance(1, 2) });
+        t2spec = Some(T2Spec { modes, plan, profile: profile.into(), force_color: r.chance(1, 2), raw_base_name });
     } else {
         personality = if has_cycle { *r.pick(&[Personality::Strict, Personality::SameId]) } else { *r.pick(&[Personality::Strict, Personality::Fresh, Personality::SameId]) };
         // reader faults: enumerate kind x import index from the run index, plus random extras
@@ -210,7 +222,7 @@ pub fn check(scn: &Scenario, stats: &mut Stats) -> Vec<Violation> {
         for flags in &spec.modes {
             let force_color = spec.force_color && !flags.iter().any(|f| f == "--no-color");
             let cpu = if chars > 8_000 { 120 } else { 10 };
-            let Ok(run) = t2::run_rva(&t2::RvaCall { sandbox: &sb, base: &scn.world.base, flags, entropy: scn.entropy[0], plan: &spec.plan, profile: &spec.profile, force_color, cpu_seconds: cpu }) else {
+            let Ok(run) = t2::run_rva(&t2::RvaCall { sandbox: &sb, base: &scn.world.base, flags, entropy: scn.entropy[0], plan: &spec.plan, profile: &spec.profile, force_color, cpu_seconds: cpu, raw_base: spec.raw_base_name.as_deref().map(t2::unhex) }) else {
                 stats.inc("harness:spawn_failed");
                 return out;
             };
